@@ -128,6 +128,7 @@ def run(ctx, run):
                       unit, nontrivial=False)
     _reset_complete(ctx, run)
     _frame_gate(ctx, run)
+    _frame_walk_complete(ctx, run)
     from .. import sweep
     sweep.run(ctx, run, [IDL, PFC], {}, 15)
 
@@ -632,3 +633,54 @@ def _frame_gate(ctx, run):
                               "mask test covering both line-range bits (0x3) - lines tagged with a single range bit are skipped and "
                               "the packet continuity of the selected stream breaks" % (name, callee, "; ".join(seen) or "missing"),
                               ex.loc(f, i))
+
+
+def _frame_walk_complete(ctx, run):
+    """RF-CORR: the per-packet feed functions refuse every Teletext packet with an uncorrectable
+    address byte - before they look at its channel or page - so a damaged packet of an unrelated
+    service makes them return FALSE.  The frame feeders must nevertheless look at every line of
+    the frame: the only way out of their line loop is the loop condition.  Leaving at the first
+    refused line loses the intact packets of the selected channel behind it (IDL: a data-lost
+    flag on a stream that lost nothing; PFC: the block in progress)."""
+    from .. import loops
+    P = ctx.prog
+    for name, unit in (("vbi_pfc_demux_feed_frame", PFC), ("vbi_idl_demux_feed_frame", IDL)):
+        f = P.need(name, unit)
+        run.touch(f)
+        L = loops.natural_loops(f)
+        if not L:
+            raise AnalysisBroken("%s: line loop not found" % name)
+        head = max(L, key=lambda h: len(L[h]))
+        body = L[head]
+        early = []
+        # blocks reachable from the head's body-successor without passing the head again
+        inside = set(body)
+        st = [s for s, _ in f.edges(head) if s in body]
+        seen = set()
+        while st:
+            b = st.pop()
+            if b in seen or b == head:
+                continue
+            seen.add(b)
+            for s, _ in f.edges(b):
+                if s not in inside and s != head:
+                    # a block that leaves the loop: is it a return?
+                    early.append(b)
+                st.append(s) if s in inside else None
+            # blocks after a `return` inside the loop are not part of the natural loop: look one step further
+        for b in list(seen):
+            for s, _ in f.edges(b):
+                if s not in inside and s != f.exit:
+                    if any(f.exprs[i]["k"] == "ret" for i in f.blocks[s].elems):
+                        early.append(s)
+        key = "RF-CORR:%s:every-line-visited" % name
+        if early:
+            b = early[0]
+            line = f.blocks[b].term["line"] if f.blocks[b].term else (f.exprs[f.blocks[b].elems[0]]["line"] if f.blocks[b].elems else f.line)
+            run.violation("RF-CORR", key, "%s() leaves its loop over the lines of the frame before the last line (a return inside the "
+                          "loop): after one refused packet - any Teletext packet with an uncorrectable address, of whatever service "
+                          "- the remaining lines of the frame are never fed and intact packets of the selected channel are lost"
+                          % name, "%s:%d" % (f.file, line))
+        else:
+            run.holds("RF-CORR", key, "the line loop is left only through its own condition: every line of the frame is fed",
+                      "%s:%d" % (f.file, f.line))
